@@ -66,39 +66,41 @@ func main() {
 }
 
 func combine(fields []st.Field) []st.Field {
-	new := st.Field{}
-	cur := ""
 	var out []st.Field
-	wasPad := true
 	for _, field := range fields {
-		var prefix string
 		if field.IsPadding {
-			wasPad = true
 			continue
 		}
 		p := strings.Split(field.Name, ".")
-		prefix = strings.Join(p[:2], ".")
-		if field.Align > new.Align {
-			new.Align = field.Align
+		prefix := strings.Join(p[:2], ".")
+		if len(p) == 2 {
+			out = append(out, field)
+			continue
 		}
-		if !wasPad {
-			new.End = field.Start
-			new.Size = new.End - new.Start
+		// field is part of a nested struct; merge it into the
+		// field of the outermost struct that contains it.
+		if len(out) == 0 || out[len(out)-1].Name != prefix || out[len(out)-1].Type != "struct" {
+			out = append(out, st.Field{
+				Name:  prefix,
+				Type:  "struct",
+				Start: field.Start,
+				End:   field.Start,
+			})
 		}
-		if prefix != cur {
-			if cur != "" {
-				out = append(out, new)
-			}
-			cur = prefix
-			new = field
-			new.Name = prefix
-		} else {
-			new.Type = "struct"
+		cur := &out[len(out)-1]
+		cur.End = field.End
+		if field.Align > cur.Align {
+			cur.Align = field.Align
 		}
-		wasPad = false
 	}
-	new.Size = new.End - new.Start
-	out = append(out, new)
+	for i := range out {
+		field := &out[i]
+		if field.Type == "struct" && field.Align > 0 {
+			// the size of a struct is a multiple of its alignment
+			field.End = field.Start + align(field.End-field.Start, field.Align)
+		}
+		field.Size = field.End - field.Start
+	}
 	return out
 }
 
